@@ -63,6 +63,8 @@ pub struct VerifProbe {
     /// Number of `peek_next_token` calls so far.
     pub token_reads: u64,
     pub line_count: usize,
+    /// Current depth of nested expression / statement evaluation (0 between host calls).
+    pub nesting_depth: usize,
 }
 
 pub(crate) fn fnv1a(hash: &mut u64, bytes: &[u8]) {
